@@ -109,6 +109,28 @@ def checkEng (params : List String) (lines : List String) : CaseResult := Id.run
       if requested then
         implFires := implFires + 1
         implListening := false
+    | ["burst", names] =>
+      -- events handed in back to back by one sender: the node sees them in that order; it stops listening when it fires
+      let evs : List (Option Nat) := (names.splitOn ",").map (fun name =>
+        if name.startsWith "sig" then (match (name.drop 3).toString.toNat? with | some k => if k < d then some k else none | none => none)
+        else none)
+      let mut expect := false
+      let wasListening := implListening
+      for ev in evs do
+        if listening then
+          let (s', m, _) := satisfy sat ev
+          sat := s'
+          if implListening then hist := hist ++ [ev]
+          if m then
+            expect := true
+            listening := false
+      if expect != requested then
+        r := { r with diffs := s!"op {n} burst {names}: model fires={expect} impl fires={requested}" :: r.diffs }
+      if !par && wasListening && !requested && evs.any (·.isSome) then
+        r := { r with specs := s!"multiple_catch_ignores_matching_event: op {n}: the listening catch event was handed `{names}` by one sender, one of them matches a definition, it did not fire" :: r.specs }
+      if requested then
+        implFires := implFires + 1
+        implListening := false
     | "answer" :: "T" :: occ :: _ =>
       let k := (occ.toNat?).getD 0
       if requested then
